@@ -264,6 +264,20 @@ def gen_merge(rng, nmax):
         # differences exactly equal to the threshold (k*t and (k+1)*t are exact for t = float(1e-12))
         k = 2 ** rng.randint(0, 8)
         return {'op': 'merge', 'a': qs([k * THR, 1.0]), 'b': qs([(k + 1) * THR, (k + 2) * THR + THR / 4, 2.0])}
+    if rng.random() < 0.15:
+        # the same nominal grid twice, every point of the second set within the threshold of its partner (or equal to
+        # it), on either side: same length, pairwise close, not identical
+        base = sorted({float(O.dy(rng, 100, 10000, 3)) for _ in range(rng.randint(2, nmax))})
+        other = []
+        for x in base:
+            r = rng.random()
+            d = 10 ** rng.uniform(-15.5, -12.3)
+            other.append(x if r < 0.4 else x + d if r < 0.7 else x - d)
+        if other == base:
+            other[-1] = base[-1] + 4e-13
+        if rng.random() < 0.5:
+            base, other = other, base
+        return {'op': 'merge', 'a': qs(base), 'b': qs(sorted(set(other)))}
     base = sorted({float(O.dy(rng, 100, 10000, 3)) for _ in range(rng.randint(1, nmax))})
     a, b = [], []
     for x in base:
@@ -290,13 +304,13 @@ def gen_merge(rng, nmax):
 
 def gen_waveset_case(rng, depth):
     e = c02.gen_tree(rng, rng.randint(0, depth), 'source' if rng.random() < 0.7 else 'unitless')
-    if rng.random() < 0.3 and c02.static_kind(e) == 'source':
+    if rng.random() < 0.4 and c02.static_kind(e) == 'source':
         # the redshift assigned on the result (a composite, or an operand that already carries one)
         e = {'setz': {'z': q(rng.choice([F(1), F(3), F(1, 2), F(-1, 2), F(1, 4), F(7)])),
                       'ztype': rng.choice([None, 'wavelength_only', 'conserve_flux'])}, 'e': e}
     O.fill_ss(e, with_ss=True)
     c = {'op': 'expr_waveset', 'expr': e}
-    if rng.random() < 0.5:
+    if rng.random() < 0.6:
         c['repeat'] = rng.randint(1, 3)
     return c
 
